@@ -1,7 +1,20 @@
-import Netpol.Model.Engine
-import Netpol.Model.Diff
-import Netpol.Model.Sort
-namespace Netpol.Properties.C08
-open Netpol
+import Netpol.Properties.C08.Engine
+/-! C08 — output is deterministic and independent of the order of the input.
 
-end Netpol.Properties.C08
+The property is split along the pipeline:
+
+* `Netpol.Properties.C08.Engine` (this import): the modelled `list` report (`WorldDriver.runList`: peers, connection
+  lines, ingress-controller lines, blocked list, or the error) does not depend on the order of the input documents
+  (`list_order_independent`, under the explicit, decidable, permutation-invariant well-formedness `WellFormed`,
+  `IngressWF` and a successful `build`), nor on the order of rules / peers / ports / policyTypes inside NetworkPolicies
+  (`np_inner_order_independent`, sharp form `np_inner_order_independent_or`); `build` accepts or rejects a set of
+  documents whatever their order (`build_accepts_order_independent`). Every hypothesis is justified there by a
+  counterexample (`decide`d on the model); the counterexamples that are legal Kubernetes inputs were replayed on the real
+  code (DESIGN.md section 12).
+* `Netpol.Properties.C08.Format` (format layer: each formatter is a function of the *set* of computed entries) — see
+  that module when present.
+
+Go's map iteration order is modelled as "the model's lists are in input order and the input order is arbitrary":
+a theorem quantified over all permutations of the input covers every iteration order of `podsMap`, `netpolsMap`,
+`namespacesMap` that the list path can observe. Run-to-run determinism of the real process, and `list --exposure`,
+`diff`, `eval`, are decided by K-diff and P (`shuffle` and `fmt` families). -/
